@@ -1,5 +1,6 @@
 (* C08 x C12: target updates over a whole learn() call. *)
 From SB3V Require Import Lib.Tactics Model.LearnLoop Model.Cadence Model.LearnCadence Proofs.LearnLoopProofs Proofs.CadenceProofs.
+From SB3V Require Import Model.Polyak Proofs.PolyakProofs.
 Local Open Scope Z_scope.
 
 (* ------------------------------------------------------------------ the loop with equal rollouts, in closed form *)
@@ -152,3 +153,23 @@ Proof.
   rewrite sac_calls_repeat_count by exact Ht. rewrite Z2Nat.id by lia. reflexivity.
 Qed.
 End WholeCall.
+
+(* ------------------------------------------------------------------ the ACTUAL cadence drives the units: nothing writes the targets
+   between two update instants.  Generic counter (m, c): DQN m = max(tui // n_envs, 1), c = _n_calls, units = vectorised env steps;
+   TD3/DDPG m = policy_delay, c = _n_updates, units = the gradient steps of all train() calls (td3_calls_global);
+   SAC m = target_update_interval, c = -1, units = the gradient steps of ONE train() call (sac_train_eq) *)
+Theorem cadence_no_write_between_updates ptau stau s m c u1 u2 :
+  (forall t, (t < length u2)%nat -> (c + Z.of_nat (length u1) + Z.of_nat t + 1) mod m <> 0) ->
+  let run us := units_run ptau stau s (with_flags us (dqn_steps m c (length us))) in
+  tg_params (run (u1 ++ u2)) = tg_params (run u1) /\ tg_stats (run (u1 ++ u2)) = tg_stats (run u1).
+Proof.
+  intros H. cbv zeta beta. rewrite app_length, dqn_steps_app.
+  apply no_write_on_unflagged_stretch; [symmetry; apply dqn_steps_length|].
+  intros t. destruct (Nat.lt_ge_cases t (length u2)) as [Hlt|Hge].
+  - rewrite dqn_steps_nth by exact Hlt. apply Z.eqb_neq. apply H. exact Hlt.
+  - apply nth_overflow. rewrite dqn_steps_length. exact Hge.
+Qed.
+
+Theorem cadence_flags_td3_sac delay c gs tui g :
+  td3_calls delay c gs = dqn_steps delay c (fold_right Nat.add 0%nat gs) /\ sac_train tui g = dqn_steps tui (-1) g.
+Proof. split; [apply td3_calls_global|apply sac_train_eq]. Qed.
